@@ -59,6 +59,16 @@ class Monitor:
     def case_begin(self, case):
         self.case = case
         self.found = None
+        if self.prop == 'C05':
+            # invariant at a quiescent point: after the driver's reset of the identifier pool no
+            # reserved word of the target language can be drawn (every identifier comes from the pool)
+            from src import utils
+            bad = sorted((self.res | refcheck.KEYWORDS.get(self.lang, set())) & set(utils.random.WORDS))
+            self.out.ev('pool-checks')
+            if bad:
+                self.out.violation({'rule': 'RESERVED', 'lang': self.lang, 'kind': 'identifier-pool'},
+                                   'after reset_word_pool the identifier pool contains reserved word(s) %s' % bad[:6],
+                                   {'case': case.ident(), 'words': bad[:20]})
 
     def after_generate(self, program):
         out = self.out
